@@ -626,8 +626,14 @@ func aggregate(prop, tier string, seed int, spec propSpec, results []*rep.Result
 		"assumptions": assumptions, "wall_s": wall.Seconds(), "violations": nviol,
 	}
 	eb, _ := json.MarshalIndent(ev, "", " ")
-	os.MkdirAll(filepath.Join(verifRoot, "evidence"), 0o755)
-	if err := os.WriteFile(filepath.Join(verifRoot, "evidence", prop+".json"), eb, 0o644); err != nil {
+	// (runs against another checkout - seeded changes on scratch worktrees - keep their evidence and
+	// replay files out of /verif: VERIF_OUT names the directory to use instead)
+	evDir := filepath.Join(verifRoot, "evidence")
+	if o := os.Getenv("VERIF_OUT"); o != "" {
+		evDir = filepath.Join(o, "evidence")
+	}
+	os.MkdirAll(evDir, 0o755)
+	if err := os.WriteFile(filepath.Join(evDir, prop+".json"), eb, 0o644); err != nil {
 		die("writing evidence: %v", err)
 	}
 	fmt.Printf("%s tier=%s evaluations=%d states=%d transitions=%d distinct=%d exhaustive=%v violations=%d known=%d wall=%.1fs\n",
